@@ -9,6 +9,10 @@ TRUSTED_BASE = [
     "correspondence machinery: Rust harness (/verif/harness, path dependency on /repo), Gallina protocol code coq/Proto.v + coq/Driver.v, "
     "OCaml extraction with ExtrOcamlBasic only (Extract Inductive bool/option/unit/list/prod/sumbool/sumor, Extract Inlined Constant andb/orb; "
     "nat, positive, N, Z, Decimal.uint stay Coq inductives), runner/driver.ml, ocamlfind ocamlopt; extraction cross-checked per run by vm_compute inside Coq on a sample",
+    "for the properties with a regenerated model (evidence key coverage.regenerated_model): the translator tools/rsparse.py + tools/rs2v.py (Rust subset -> Gallina; "
+    "table-driven, anything unknown is an error), the primitive mappings of coq/GenPrelude.v and coq/GenTreePrelude.v (std str / String / Vec / Option / Result / Cow primitives, "
+    "serde_json / toml maps as sorted association lists, Token::to_index as the hand-written index_from_str, Pointer::tokens() as a primitive), usize `+` as unbounded addition, "
+    "str::split_at's char-boundary panic not modelled; the equivalence lemmas coq/Proofs/GenEquiv*.v are re-checked by coqc on every run",
     "platform facts assumed by the model: 64-bit usize; UTF-8 self-synchronisation (bytes < 0x80 never occur inside a multi-byte sequence); "
     "BTreeMap-backed serde_json::Map / toml::Table (no preserve_order); std str/String/Vec primitives behave as documented",
 ]
@@ -91,8 +95,10 @@ def regen_note(fns):
 
 PROPERTIES = {
     "C01": {
+        "regen": {"groups": ["Pointer", "Token", "PtrOps", "Slice", "Buf", "PtrBuild"]},
+        "technique": REGEN_TECHNIQUE,
         "extra_theorem_files": ["Properties/C01_utf8.v"],
-        "level_suffix": " UTF-8 LAYER (Properties/C01_utf8.v): with utf8_valid = the Unicode Standard's Table 3-7 (Rust's str validity), every constructor, accessor, slicer, two-pointer operation and every "
+        "level_suffix": regen_note("the parser, the token constructors, every accessor / splitter / slicer, the two-pointer operations, the builders and all PointerBuf mutators (Properties/C01_src.v: what they return or leave behind for valid inputs is valid RFC 6901 text)") + " UTF-8 LAYER (Properties/C01_utf8.v): with utf8_valid = the Unicode Standard's Table 3-7 (Rust's str validity), every constructor, accessor, slicer, two-pointer operation and every "
                         "finite history of the seven mutators maps well-formed UTF-8 to well-formed UTF-8 - the logical precondition of each internal from_utf8_unchecked / new_unchecked (their UB-freedom itself is not covered).",
         "runs": [{"suite": s_} for s_ in ("token", "parse", "tokens", "buf", "slice", "prefix", "conv")],
         "level_text": "Proved in Coq, one clause per safe public function family (constructors and the eight doors, Token::new/from_encoded/into_owned/from(integer), both Deserialize impls, from_tokens/From<Token>/From<usize>; "
@@ -124,6 +130,9 @@ PROPERTIES = {
         "rule": TREE_RULE + "; for C06 the assign cases",
     },
     "C07": {
+        "regen": {"groups": ["Tree", "Token", "PtrOps", "Slice", "Index"]},
+        "technique": REGEN_TECHNIQUE + " (the assign walk itself mutates through &mut Value: hand-written model + differential tie; regenerated: resolve, for_len_incl, expand)",
+        "level_suffix": regen_note("what the laws are read with and what assign decides with: the resolve walks, Index::for_len_incl, expand (src/resolve.rs, src/index.rs, src/assign.rs)"),
         "runs": [{"suite": "tree", "filter": tree_ops("A")}],
         "level_text": "Proved in Coq on spec_assign and transported to the model through C06's equality: atomic on error (document unchanged; needs the BTreeMap invariant because the functional model rebuilds the spine), read-your-write "
                       "(with '-' read as the new last index; plain resolve for dash-free pointers), frame (every location neither a token-prefix of p nor below p keeps its value and node), replaced = what resolved before / None "
@@ -131,6 +140,9 @@ PROPERTIES = {
         "rule": TREE_RULE + "; for C07 the assign cases, each followed by the law checks (resolve after assign, every old path compared, assign twice)",
     },
     "C08": {
+        "regen": {"groups": ["Tree", "Token", "PtrOps", "Slice", "Index"]},
+        "technique": REGEN_TECHNIQUE + " (delete itself mutates through &mut Value: hand-written model + differential tie; regenerated: split_back, the resolve_mut parent walk, Index::from_str, for_len, decoded)",
+        "level_suffix": regen_note("every decision delete takes: Pointer::split_back, the resolve_mut parent walk on both backends, Index::from_str, the exclusive bound check Index::for_len, Token::decoded"),
         "runs": [{"suite": "tree", "filter": tree_ops("D")}],
         "level_text": "Proved in Coq: delete = spec_delete, never Panic (the model's Vec::remove panics when idx >= len, so with for_len_incl this is false and with for_len provable); returns Some v iff the pointer resolves (to v); "
                       "None leaves the document unchanged; on success exactly that member is removed (lookup None, other members and unrelated locations unchanged) or that element removed with successors shifted down by one "
@@ -148,6 +160,9 @@ PROPERTIES = {
         "rule": TREE_RULE + "; every json case in the common domain is also run on toml::Value and vice versa and compared",
     },
     "C10": {
+        "regen": {"groups": ["Tree", "Token", "PtrOps", "Slice", "Index"]},
+        "technique": REGEN_TECHNIQUE + " (assign / delete steps: hand-written model + differential tie; regenerated: the four resolve walks incl. their error values and labels, expand)",
+        "level_suffix": regen_note("the reading steps of a history (the four resolve / resolve_mut walks, their error values and labels) and expand"),
         "runs": [{"suite": "hist"}],
         "level_text": "Proved in Coq by induction over the history from the single-step equalities: for every initial document and every finite list of assign / delete / resolve / write-through operations with valid pointers, "
                       "folding the transliterated walks equals folding the reference tree (documents and every returned value), never Panic; the map invariant is preserved and in every reached document every node is resolved by "
@@ -199,7 +214,7 @@ PROPERTIES = {
     "C11": {
         "regen": {"groups": ["Buf", "Token", "PtrOps"]},
         "technique": REGEN_TECHNIQUE,
-        "level_suffix": regen_note("PointerBuf::push_front, push_back, pop_back, pop_front, append, clear (src/pointer.rs; replace and from_tokens are modelled by hand only)"),
+        "level_suffix": regen_note("all seven mutators PointerBuf::push_front, push_back, pop_back, pop_front, append, replace, clear and from_tokens (src/pointer.rs)"),
         "runs": [{"suite": "buf"}],
         "level_text": "Proved in Coq for every valid start pointer and every finite history of the seven mutators with arbitrary arguments (indices over all of N): the implementation-level models splice bytes as the code does "
                       "(insert at 0, rfind+split_off+pop, find in [1..]+split_off+mem::replace, collect-and-rebuild, root-aware append); one-step refinement for each mutator gives new text = from_tokens(deque after), "
@@ -256,6 +271,9 @@ PROPERTIES = {
                 "and random integers of every bit width; non-trivial = text with an escape or inner '/', or a multi-digit integer; distinct = distinct case lines",
     },
     "C04": {
+        "regen": {"groups": ["PtrOps", "Slice", "Buf", "PtrBuild", "Token"]},
+        "technique": REGEN_TECHNIQUE,
+        "level_suffix": regen_note("Pointer::count, is_root, front / first, back / last, get(usize), len, is_empty, to_buf, with_trailing_token, with_leading_token, concat and PointerBuf::from_tokens (src/pointer.rs, src/pointer/slice.rs; components() / IntoIterator wrap the Tokens iterator, a primitive of the translation)"),
         "runs": [{"suite": "tokens"}, {"suite": "slice", "filter": lambda c: c.startswith("get "), "nontrivial": lambda c: True}],
         "level_text": "Proved in Coq for all lists of byte strings and all valid pointer texts: the transliterated from_tokens (fold of pushes through Token::new) equals the flat-map spec; "
                       "decoded tokens of from_tokens(L) are L, count = |L|; from_tokens(tokens(p)) = p for valid p; from_tokens is injective (text and list determine each other); "
@@ -269,7 +287,7 @@ PROPERTIES = {
     "C16": {
         "regen": {"groups": ['Index']},
         "technique": REGEN_TECHNIQUE,
-        "level_suffix": regen_note('Index::for_len, for_len_incl, for_len_unchecked (src/index.rs; Index::from_str is an iterator chain over chars and is modelled by hand only)'),
+        "level_suffix": regen_note("impl FromStr for Index (through the code points of the text: the CHAR index it computes is proved equal to the BYTE index of the model on well-formed UTF-8), From<ParseIntError> for ParseIndexError, Index::for_len, for_len_incl, for_len_unchecked (src/index.rs; str::parse::<usize> is the hand-written parse_usize)"),
         "runs": [{"suite": "index", "profile": "debug"}, {"suite": "index", "profile": "release"}],
         "level_text": "Proved in Coq for all byte strings and all naturals: index_from_str s = Ok(Num n) iff n <= usize::MAX and s is the canonical decimal spelling of n (bridge to the stdlib's "
                       "N.to_uint / N.of_uint round trip), Ok(Next) iff s = \"-\"; parse after Display and Display after parse are identities; each rejection is characterised by an iff "
